@@ -287,13 +287,16 @@ def euler(ai, bi, select, b1950=False, dtype="f8"):
     sb = sin(b)
     cb = cos(b)
     cbsa = cb * sin(a)
+    cbca = cb * cos(a)
     b = -stheta[i] * cbsa + ctheta[i] * sb
-    (w,) = np.where(b > 1.0)
-    if w.size > 0:
-        b[w] = 1.0
-    bo = arcsin(b) * R2D
+    ynew = ctheta[i] * cbsa + stheta[i] * sb
 
-    a = arctan2(ctheta[i] * cbsa + stheta[i] * sb, cb * cos(a))
+    # the tabulated sin/cos(theta) are not exactly normalized, so the
+    # latitude is taken from the full rotated vector: arcsin of its z
+    # component alone is nan or imprecise next to the poles
+    bo = arctan2(b, np.hypot(cbca, ynew)) * R2D
+
+    a = arctan2(ynew, cbca)
 
     ao = ((a + psi[i] + fourpi) % twopi) * R2D
 
